@@ -312,7 +312,7 @@ def _ill_conditioned(case: dict, ctx, st0: dict) -> list[str]:
 
 def examine(case: dict, ctx) -> Outcome:
     out = _examine(case, ctx)
-    if any(sig.split(":")[0] in ("initial-value-differs", "parameter-value-differs", "flux-differs", "derived-value-differs", "derivative-differs") for sig, _ in out.verdicts):
+    if any(sig.split(":")[0] in ("initial-value-differs", "parameter-value-differs", "flux-differs", "derived-value-differs", "derivative-differs", "reread-model-raises") for sig, _ in out.verdicts):
         try:
             t = _ill_conditioned(case, ctx, case["state"])
         except Exception:  # noqa: BLE001
